@@ -20,6 +20,7 @@ mod scen_c13;
 mod scen_c14;
 mod scen_c16;
 mod scen_c17;
+mod scen_dmg;
 mod scen_rd;
 mod scen_wr;
 mod scen_rt;
@@ -40,6 +41,8 @@ pub fn lookup(scen: &str) -> Option<Scenario> {
     Some(match scen {
         "rt" => scen_rt::run,
         "c13" => scen_c13::run,
+        "dmg" => scen_dmg::run,
+        "dmgcat" => scen_dmg::run_catalogue,
         "c16" => scen_c16::run,
         "c16sweep" => scen_c16::run_sweeps,
         "c08" => scen_wr::run_c08,
